@@ -59,7 +59,7 @@ CHECKS.update({
 
 CHECKS.update({
     "C08": dict(
-        text="Everything that survives a generation is a field of the state record of spec/Rapid.tla (latch count/arrivals/cancellation, cancel-once flag, registration maps and window, first fatal error, cached init error, completion channel, reservation, exit channels). Scenarios run a prefix {healthy+timeout, runtime init error, crash, timeout, extension crash, extension init error, an extension that ignores SHUTDOWN, an invocation that times out while the init it overlaps never completes, ...} ending in a reset and a suffix {healthy, crash, early internal extension, timeout} on the same instance. TLC validates (a) the whole trace against the specification and (b) the suffix alone, renumbered, against the specification started from a fresh instance whose one-time init is consumed - the state formulation of 'behaves exactly like a freshly started one'.",
+        text="Everything that survives a generation is a field of the state record of spec/Rapid.tla (latch count/arrivals/cancellation, cancel-once flag, registration maps and window, first fatal error, cached init error, completion channel, reservation, exit channels). Scenarios run a prefix {healthy+timeout, runtime init error, crash, timeout, extension crash, extension init error, an extension that ignores SHUTDOWN, an invocation that times out while the init it overlaps never completes, ...} ending in a reset and a suffix {healthy, crash, early internal extension, timeout} on the same instance. The result rapid hands to the server for every invocation (kind, runtime identity string) is recorded behind the server and bound as well. TLC validates (a) the whole trace against the specification and (b) the suffix alone, renumbered, against the specification started from a fresh instance whose one-time init is consumed - the state formulation of 'behaves exactly like a freshly started one'.",
         note=SCEN_NOTE + " Late exit notifications of old processes are ordered by the fake supervisor's goroutines, not forced.", technique="TLA+ spec + TLC trace validation; suffix-from-fresh acceptance (relational property as state equality)",
         engine="E4-scenarios + E3-trace", ref="DESIGN.md 6 C08"),
 })
